@@ -21,6 +21,7 @@ type refCfg struct {
 	ver         uint16 // TLS version when tls is set (0 = TLS 1.2)
 	auto        bool   // library server in GMSSL/TLS auto-switch mode (GMSSL reference client)
 	reneg       bool   // library client with Config.Renegotiation = RenegotiateFreelyAsClient
+	coalesce    bool   // the scripted peer packs the handshake messages of a flight into one record
 }
 
 func (r refCfg) ecdhe() bool {
@@ -56,6 +57,9 @@ func (r refCfg) String() string {
 	if r.reneg {
 		role = "renegotiation-enabled/" + role
 	}
+	if r.coalesce {
+		role = "coalesced-records/" + role
+	}
 	return fmt.Sprintf("%s/%04x/client-auth=%v", role, r.suite, r.auth)
 }
 
@@ -90,6 +94,7 @@ func (r refCfg) setup(q *gmref.Peer) {
 	}
 	q.Suites = []uint16{r.suite}
 	q.RequestCert = r.auth
+	q.Coalesce = r.coalesce
 }
 
 // streams are the conformant server-to-client message streams of the profile.
@@ -626,9 +631,9 @@ func refUnits() []harness.Unit {
 		for _, suite := range []uint16{gmtls.GMTLS_ECC_SM4_CBC_SM3, gmtls.GMTLS_ECC_SM4_GCM_SM3} {
 			for _, auth := range []bool{false, true} {
 				for f := 0; f < 2; f++ {
-					u = append(u, refSequenceUnit(refCfg{lc, suite, auth, false, 0, false, false}, f))
+					u = append(u, refSequenceUnit(refCfg{lc, suite, auth, false, 0, false, false, false}, f))
 				}
-				u = append(u, refMalformedUnit(refCfg{lc, suite, auth, false, 0, false, false}), refStraddleUnit(refCfg{lc, suite, auth, false, 0, false, false}))
+				u = append(u, refMalformedUnit(refCfg{lc, suite, auth, false, 0, false, false, false}), refStraddleUnit(refCfg{lc, suite, auth, false, 0, false, false, false}))
 			}
 		}
 	}
@@ -636,19 +641,19 @@ func refUnits() []harness.Unit {
 	for _, lc := range []bool{true, false} {
 		for _, suite := range []uint16{gmref.SuiteAESCBC, gmref.SuiteAESGCM} {
 			for _, auth := range []bool{false, true} {
-				r := refCfg{lc, suite, auth, true, 0, false, false}
+				r := refCfg{lc, suite, auth, true, 0, false, false, false}
 				u = append(u, refSequenceUnit(r, 0), refSequenceUnit(r, 1), refMalformedUnit(r), refStraddleUnit(r))
 			}
 		}
 		for _, es := range []uint16{gmref.SuiteECDHERSAGCM, gmref.SuiteECDHEECDSAGCM} {
-			r := refCfg{lc, es, es == gmref.SuiteECDHERSAGCM, true, 0, false, false}
+			r := refCfg{lc, es, es == gmref.SuiteECDHERSAGCM, true, 0, false, false, false}
 			u = append(u, refSequenceUnit(r, 0), refSequenceUnit(r, 1), refStraddleUnit(r), refMalformedUnit(r))
 		}
 		// ephemeral ECDH with the CBC suites at every TLS version (below 1.2 the signed parameters
 		// carry no algorithm bytes and use the fixed RFC 4492 digests)
 		for _, v := range []uint16{0x0301, 0x0302, 0x0303} {
 			for _, es := range []uint16{gmref.SuiteECDHEECDSACBC, gmref.SuiteECDHERSACBC256} {
-				r := refCfg{lc, es, es == gmref.SuiteECDHEECDSACBC, true, v, false, false}
+				r := refCfg{lc, es, es == gmref.SuiteECDHEECDSACBC, true, v, false, false, false}
 				u = append(u, refMalformedUnit(r))
 				if v != 0x0303 {
 					u = append(u, refSequenceUnit(r, 0), refSequenceUnit(r, 1))
@@ -657,29 +662,37 @@ func refUnits() []harness.Unit {
 		}
 		for _, v := range []uint16{0x0301, 0x0302} {
 			for _, auth := range []bool{false, true} {
-				r := refCfg{lc, gmref.SuiteAESCBC, auth, true, v, false, false}
+				r := refCfg{lc, gmref.SuiteAESCBC, auth, true, v, false, false, false}
 				u = append(u, refSequenceUnit(r, 0), refSequenceUnit(r, 1), refMalformedUnit(r), refStraddleUnit(r))
 			}
 		}
 	}
 	u = append(u, refUnofferedSuiteUnit())
+	// the same flight edits with the peer's handshake messages packed into one record per flight (a
+	// message that arrives early then shares a record with its predecessor)
+	for _, lc := range []bool{true, false} {
+		for _, r := range []refCfg{{lc, gmref.SuiteAESCBC, false, true, 0x0303, false, false, true}, {lc, gmref.SuiteAESGCM, true, true, 0x0303, false, false, true}, {lc, gmref.SuiteAESCBC, false, true, 0x0301, false, false, true},
+			{lc, gmtls.GMTLS_ECC_SM4_CBC_SM3, false, false, 0, false, false, true}, {lc, gmtls.GMTLS_ECC_SM4_GCM_SM3, true, false, 0, false, false, true}, {lc, gmref.SuiteECDHERSAGCM, false, true, 0x0303, false, false, true}} {
+			u = append(u, refSequenceUnit(r, 0), refSequenceUnit(r, 1))
+		}
+	}
 	// a client that allows renegotiation takes other branches of the record layer from its first
 	// handshake on (handshake records are admitted where others are expected)
-	for _, r := range []refCfg{{true, gmref.SuiteAESCBC, false, true, 0x0303, false, true}, {true, gmref.SuiteAESGCM, true, true, 0x0303, false, true}, {true, gmref.SuiteAESCBC, false, true, 0x0301, false, true},
-		{true, gmref.SuiteECDHERSAGCM, false, true, 0x0303, false, true}, {true, gmtls.GMTLS_ECC_SM4_CBC_SM3, false, false, 0, false, true}, {true, gmtls.GMTLS_ECC_SM4_GCM_SM3, true, false, 0, false, true}} {
+	for _, r := range []refCfg{{true, gmref.SuiteAESCBC, false, true, 0x0303, false, true, false}, {true, gmref.SuiteAESGCM, true, true, 0x0303, false, true, false}, {true, gmref.SuiteAESCBC, false, true, 0x0301, false, true, false},
+		{true, gmref.SuiteECDHERSAGCM, false, true, 0x0303, false, true, false}, {true, gmtls.GMTLS_ECC_SM4_CBC_SM3, false, false, 0, false, true, false}, {true, gmtls.GMTLS_ECC_SM4_GCM_SM3, true, false, 0, false, true, false}} {
 		u = append(u, refSequenceUnit(r, 0), refSequenceUnit(r, 1), refStraddleUnit(r))
 	}
 	for _, suite := range []uint16{gmtls.GMTLS_ECC_SM4_CBC_SM3, gmtls.GMTLS_ECC_SM4_GCM_SM3} {
-		u = append(u, refCertRequestUnit(refCfg{true, suite, true, false, 0, false, false}))
+		u = append(u, refCertRequestUnit(refCfg{true, suite, true, false, 0, false, false, false}))
 	}
 	for _, v := range []uint16{0x0301, 0x0302, 0x0303} {
-		u = append(u, refCertRequestUnit(refCfg{true, gmref.SuiteAESCBC, true, true, v, false, false}))
+		u = append(u, refCertRequestUnit(refCfg{true, gmref.SuiteAESCBC, true, true, v, false, false, false}))
 	}
-	u = append(u, refCertRequestUnit(refCfg{true, gmref.SuiteECDHEECDSACBC, true, true, 0x0301, false, false}), refCertRequestUnit(refCfg{true, gmref.SuiteECDHERSAGCM, true, true, 0x0303, false, false}))
+	u = append(u, refCertRequestUnit(refCfg{true, gmref.SuiteECDHEECDSACBC, true, true, 0x0301, false, false, false}), refCertRequestUnit(refCfg{true, gmref.SuiteECDHERSAGCM, true, true, 0x0303, false, false, false}))
 	// the auto-switch server has its own ClientHello processing in front of the GMSSL handshake
 	for _, suite := range []uint16{gmtls.GMTLS_ECC_SM4_CBC_SM3, gmtls.GMTLS_ECC_SM4_GCM_SM3} {
 		for _, auth := range []bool{false, true} {
-			r := refCfg{false, suite, auth, false, 0, true, false}
+			r := refCfg{false, suite, auth, false, 0, true, false, false}
 			u = append(u, refSequenceUnit(r, 0), refSequenceUnit(r, 1), refMalformedUnit(r))
 		}
 	}
